@@ -67,7 +67,7 @@ var _ logging.Logger = (*NopLogger)(nil)
 type Truth struct {
 	mu     sync.Mutex
 	signed map[[32]byte]map[hotstuff.ID]int
-	// Log is the ordered list of all signing events.
+	// Log is the ordered list of signing events, first occurrence of every (signer, message) pair.
 	Log []SignEvent
 }
 
@@ -88,7 +88,9 @@ func (t *Truth) record(id hotstuff.ID, msg []byte) {
 		t.signed[h] = m
 	}
 	m[id]++
-	t.Log = append(t.Log, SignEvent{ID: id, Msg: append([]byte(nil), msg...), Tag: fmt.Sprintf("%d:%x", id, h[:6])})
+	if m[id] == 1 { // one entry per (signer, message): fixtures shared by 10^6 executions must not grow
+		t.Log = append(t.Log, SignEvent{ID: id, Msg: append([]byte(nil), msg...), Tag: fmt.Sprintf("%d:%x", id, h[:6])})
+	}
 	t.mu.Unlock()
 }
 
